@@ -40,11 +40,12 @@ Init ==
 Pending == {c \in 1..NT : ~T(c).leaf /\ Kids(c) # {} /\ ~ts[c].sched /\ \A k \in Kids(c) : ts[k].sched}
 
 Pick(t) ==
-  /\ pc = "run" /\ cur = 0 /\ Pending = {} /\ FirstReady(t) /\ T(t).effort > 0 /\ Len(T(t).alloc) > 0
+  /\ pc = "run" /\ cur = 0 /\ Pending = {} /\ FirstReady(t) /\ T(t).effort > 0 /\ Len(T(t).alloc) + Len(T(t).alt) > 0
   /\ LET b == IF Fwd(t) THEN BoundF(t) ELSE Deadline(t)
          c == IF Fwd(t) THEN b \div G ELSE CursorB(t, b)
      IN ts' = [ts EXCEPT ![t].st = "walk", ![t].cur = c, ![t].bslot = IF Fwd(t) THEN b \div G ELSE -1,
-                         ![t].off = IF Fwd(t) THEN b % G ELSE 0, ![t].dl = b]
+                         ![t].off = IF Fwd(t) THEN b % G ELSE 0, ![t].dl = b,
+                         ![t].sel = ExpSel(t, c)]         \* the one-time choice among the candidates (Select)
   /\ cur' = t /\ ld' = 0 /\ UNCHANGED <<proj, used, usage, lim, lsec, pc>>
 
 RECURSIVE FirstFromF(_, _), FirstFromB(_, _)
@@ -103,7 +104,7 @@ Milestone(t) ==
 
 \* an effort task without resources can never be placed
 NoAlloc(t) ==
-  /\ pc = "run" /\ cur = 0 /\ Pending = {} /\ FirstReady(t) /\ T(t).effort > 0 /\ Len(T(t).alloc) = 0
+  /\ pc = "run" /\ cur = 0 /\ Pending = {} /\ FirstReady(t) /\ T(t).effort > 0 /\ Len(T(t).alloc) + Len(T(t).alt) = 0
   /\ ts' = [ts EXCEPT ![t].st = "failed"] /\ ld' = 0 /\ UNCHANGED <<proj, used, usage, lim, lsec, cur, pc>>
 
 RollUp(c) ==
@@ -127,6 +128,7 @@ Inv01 == \A k \in DOMAIN used : P01At(used, usage, k)                           
 Inv02 == \A k \in DOMAIN usage : usage[k] # <<>> => OnShift(k[1], k[2])                 \* C02 (aligned universes)
 Inv03 == \A t \in SchedLeafs : (T(t).effort > 0) =>                                    \* C03
             \A r \in SeqSet(Members(t)) : r \in DOMAIN ts[t].sum /\ ts[t].sum[r] = Need(t, r)
+Inv03b == \A t \in SchedLeafs : T(t).effort > 0 => OneCandidate(t, SeqSet(Members(t)))        \* C03: exactly one of the candidates
 Inv04 == \A t \in SchedLeafs : P04Of(t, ts[t].start, ts[t].end)                        \* C04
 Inv05 == \A k \in DOMAIN lsec : P05At(lsec, k)                                         \* C05
 Inv06 == \A t \in SchedLeafs : /\ P06Of(t, ts[t].start, ts[t].end, T(t).effort)        \* C06
